@@ -120,7 +120,7 @@ def cmd_run(name, tier="quick", pids=None):
                 os.remove(ep)
     meta.setdefault("checks", {})
     for pid, r in results.items():
-        meta["checks"]["%s/%s" % (pid, tier)] = r
+        meta["checks"]["%s/%s%s" % (pid, tier, "@seed" + os.environ["VERIF_SEED"] if os.environ.get("VERIF_SEED") else "")] = r
     meta["caught"] = any(r["exit"] == 1 and r["violations"] > 0 for r in meta["checks"].values())
     json.dump(meta, open(os.path.join(d, "meta.json"), "w"), indent=1)
     return results
